@@ -1,3 +1,4 @@
+import TypifyModel.Proofs.Exclusive
 import TypifyModel.Proofs.C03
 import TypifyModel.Proofs.C03Valid
 import TypifyModel.Proofs.C03Contain
@@ -14,5 +15,8 @@ open TypifyModel.C03 TypifyModel.RoundTrip
 #print axioms struct_roundtrip_contains
 #print axioms variant_roundtrip_contains
 #print axioms TypifyModel.C03V.rt_valid_enforced
-#print axioms TypifyModel.RoundTrip.struct_rt_flat
-#print axioms TypifyModel.RoundTrip.flat_decompose
+#print axioms TypifyModel.Excl.required_undeclared_sound_closed
+#print axioms TypifyModel.Excl.open_branch_not_exclusive
+#print axioms TypifyModel.Excl.fixed_values_not_exclusive
+#print axioms TypifyModel.Excl.typed_enum_not_exclusive
+#print axioms TypifyModel.Excl.integer_number_not_exclusive
